@@ -4,7 +4,7 @@
    MIR_scan_string), coq/C10/FloatFmt.v (libc printf/strtod oracles). *)
 From Coq Require Import List ZArith NArith.
 From MirV Require Import Base.W64 C11.Ast C11.BinIO C11.BinIOProofs C10.TextOut C10.TextScan C10.TextProofs C10.LexProofs
-  C10.TextTokens C10.ParseProofs C10.PrintNormProofs.
+  C10.TextTokens C10.ParseProofs C10.PrintNormProofs C10.LexAllProofs C10.TextFixpoint C10.FloatFmt C10.TextExamples.
 Import ListNotations.
 Local Open Scope Z_scope.
 
@@ -76,3 +76,32 @@ Print Assumptions text_print_tnorm.
 Theorem text_print_norm : forall fF fD fLD ms, p_ctx fF fD fLD (map norm_module ms) = p_ctx fF fD fLD ms.
 Proof. exact p_ctx_norm. Qed.
 Print Assumptions text_print_norm.
+
+(* THE PROPERTY in the model: scanning the text the writer produces yields the modules up to
+   [tnorm_module], and that normal form prints to identical text again.  For every context of modules
+   meeting [wf_text] (TextFixpoint.v): identifiers as names, byte strings, immediates in range, the libc
+   law on each float immediate present (pF/pD/pLD = strtof/strtod/strtold, fF/fD/fLD = printf with
+   FLT/DBL/LDBL_MANT_DIG digits: lexeme of the printf shape and strtoX (printf x) = x), names resolving
+   as meant, labels numbered in order of first occurrence (what MIR_scan_string itself produces), UINT
+   immediates < 2^63 and STR operands NUL-terminated (the complement of the recorded known findings).
+   Not covered by this theorem (correspondence only): p-typed data (hexadecimal literals), modules
+   whose labels are numbered otherwise (the model predicts the renumbered text). *)
+Theorem text_module_fixpoint : forall pF pD pLD fF fD fLD ms, wf_text pF pD pLD fF fD fLD ms ->
+  scan_ctx pF pD pLD (p_ctx fF fD fLD ms) = Ok (map tnorm_module ms)
+  /\ p_ctx fF fD fLD (map tnorm_module ms) = p_ctx fF fD fLD ms.
+Proof. exact text_module_fixpoint_lemma. Qed.
+Print Assumptions text_module_fixpoint.
+
+(* the writer model terminates with an output on every context (it is a structurally recursive
+   function over items, insns and operands: no fuel, no partiality) *)
+Theorem text_writer_total : forall fF fD fLD ms, exists txt, p_ctx fF fD fLD ms = txt.
+Proof. exact text_writer_total_lemma. Qed.
+Print Assumptions text_writer_total.
+
+(* non-vacuity: with the exact libc models of FloatFmt.v, a context with a function (arguments incl. a
+   block argument, locals, a hard-register global, labels, memory operand with alias, call, switch,
+   double immediate, string), proto, bss, data, ref, lref and expr items satisfies wf_text *)
+Theorem text_fixpoint_nonvacuous :
+  wf_text parseF parseD parseLD fmtF fmtD fmtLD tex_ctx /\ map tnorm_module tex_ctx <> tex_ctx.
+Proof. exact (conj tex_wf tex_tnorm_differs). Qed.
+Print Assumptions text_fixpoint_nonvacuous.
